@@ -325,6 +325,10 @@ let dispatch (f : string array) : string =
   | "hist" -> op_hist f
   | "shape_c08" -> string_of_int (int_of_n (c08_shape (text_of_field_nn f.(1)) (text_of_field_nn f.(2)) (text_of_field_nn f.(3))))
   | "ref_kind" -> (let ((a, b), c) = ref_kind (text_of_field_nn f.(1)) in Printf.sprintf "%d %d %d" (int_of_n a) (int_of_n b) (int_of_n c))
+  | "shape_c10" ->
+    (match parse (text_of_field_nn f.(2)), parse (text_of_field_nn f.(3)) with
+     | POk s, POk b -> string_of_int (int_of_n (c10_class (bool_of_field f.(1)) s b))
+     | _, _ -> "0")
   | "suite" -> suite (int_of_string f.(1))
   | "spec_uri" -> spec_uri f
   | op -> "?unknown-op " ^ op
